@@ -801,7 +801,34 @@ def _rand_lens(rng, N, T, p_none=0.3):
     return ls
 
 
+ODD_IDS = [-1, -5, 2 ** 31, 2 ** 40, -2 ** 35]
+BIG = [2 ** 31, 2 ** 33 + 5, 10 ** 12]
+
+
+def _tok_id(rng):
+    """token ids / labels are opaque: negative ones, -1 (the marker used for missing BOUNDARIES) and huge ones included"""
+    return rng.randint(0, 9) if rng.random() < 0.8 else rng.choice(ODD_IDS)
+
+
+def _finish_slice(rng, c):
+    """unusual labels, far-away frame indices, variants"""
+    if c["policy"] == "ali" and rng.random() < 0.15:
+        lab = rng.sample([-1, 0, 2 ** 40, -2 ** 35, 7, 2 ** 31], 5)
+        c["rows"] = [[lab[v] for v in r] for r in c["rows"]]
+    if c["policy"] == "ref" and rng.random() < 0.08:
+        K = rng.choice(BIG)
+        c["rows"] = [[[t, s_ + K if s_ >= 0 else s_, e + K if e >= 0 else e] for t, s_, e in r] for r in c["rows"]]
+        if c.get("other_lens") is not None:
+            c["other_lens"] = [x + K for x in c["other_lens"]]
+    c["alts"] = rng.sample(SLICE_ALTS, 2)
+    return c
+
+
 def rand_slice(rng):
+    return _finish_slice(rng, _rand_slice(rng))
+
+
+def _rand_slice(rng):
     pol = rng.choice(["fixed", "ali", "ali", "ref"])
     wt, vo = rng.choice(WTS), rng.random() < 0.5
     if pol == "fixed":
@@ -848,7 +875,7 @@ def rand_slice(rng):
             else:
                 s = rng.randint(0, Tf)
                 e = rng.randint(s, Tf + 1)
-            row.append([rng.randint(0, 9), s, e])
+            row.append([_tok_id(rng), s, e])
         rows.append(row)
     lobe = rng.choice([0, 0, 1, 2, 3, rng.randint(0, Tf + 1)])
     ol = None if rng.random() < 0.3 else [rng.choice([Tf, rng.randint(0, Tf + 1)]) for _ in range(N)]
@@ -873,14 +900,129 @@ def rand_tokens(rng):
             else:
                 s = rng.randint(0, Tf)
                 e = rng.randint(s, Tf)
-            row.append([rng.randint(0, 9), s, e])
+            row.append([_tok_id(rng), s, e])
         refs.append(row)
         a = rng.choice([0, 0, rng.randint(-3, Tf), rng.randint(0, Tf)])
         b = rng.choice([a, a + rng.randint(1, Tf), rng.randint(-2, Tf + 2), Tf])
         slices.append([a, b])
     rl = None if rng.random() < 0.4 else [rng.choice([0, R, rng.randint(0, R)]) for _ in range(N)]
-    return dict(kind="tokens", refs=refs, R=R, slices=slices, ref_lens=rl, partial=rng.random() < 0.5,
-                retain=rng.random() < 0.4, stream="random")
+    c = dict(kind="tokens", refs=refs, R=R, slices=slices, ref_lens=rl, partial=rng.random() < 0.5,
+             retain=rng.random() < 0.4, stream="random")
+    return _finish_tokens(rng, c)
+
+
+def _finish_tokens(rng, c):
+    if rng.random() < 0.08:     # frame indices far from 0: the arithmetic is on int64
+        K = rng.choice(BIG)
+        c["refs"] = [[[t, s_ + K if s_ >= 0 else s_, e + K if e >= 0 else e] for t, s_, e in r] for r in c["refs"]]
+        c["slices"] = [[a + K, b + K] for a, b in c["slices"]]
+    c["alts"] = rng.sample(TOKEN_ALTS, 2)
+    return c
+
+
+def audit_cases(rng, k=1):
+    """streams aimed at situations a generic draw meets too rarely (notes/C10_report.md, Robustness audit)"""
+    out = []
+    # (1) 'ali' policy, few runs: the lobe offset (lobe, or 2*lobe for symmetric windows) around the number of runs of a
+    #     single sequence (what the directory command passes), also inside a batch
+    for _ in range(120 * k):
+        N = rng.choice([1, 1, 1, 2])
+        rows, T = [], None
+        runs = [rng.randint(1, 4) for _ in range(N)]
+        lens_runs = [[rng.randint(1, 3) for _ in range(r)] for r in runs]
+        T = max(sum(x) for x in lens_runs)
+        for lr in lens_runs:
+            row, lab = [], rng.randrange(3)
+            for ln in lr:
+                row += [lab] * ln
+                lab = (lab + rng.randint(1, 2)) % 3
+            row += [row[-1] if rng.random() < 0.5 else (row[-1] + 1) % 3] * (T - len(row))
+            rows.append(row)
+        wt = rng.choice(WTS)
+        sides = 2 if wt == "symmetric" else 1
+        target = max(0, runs[0] + rng.choice([-1, 0, 0, 1, 1, 2, 3]))
+        lobe = max(1, (target + sides - 1) // sides) if rng.random() < 0.9 else 0
+        il = rng.choice([None, None, [T] * N, [sum(x) for x in lens_runs], [max(sum(x) - 1, 0) for x in lens_runs]])
+        c = _sl("ali", wt, rng.random() < 0.65, lobe, T, il, rows=rows, stream="audit-ali-few-runs")
+        c["alts"] = rng.sample(SLICE_ALTS, 2)
+        out.append(c)
+    # (2) tokens whose start (or end) is the missing marker -1 against slices with a negative start, partial or not
+    for _ in range(150 * k):
+        N, R = rng.choice([1, 1, 2, 3]), rng.choice([1, 2, 3, 5])
+        Tf = rng.randint(1, 8)
+        refs, slices = [], []
+        for _n in range(N):
+            row = []
+            for _r in range(R):
+                kind = rng.random()
+                if kind < 0.4:
+                    s_, e = -1, rng.choice([-1, 0, rng.randint(0, Tf), rng.randint(0, Tf)])
+                elif kind < 0.5:
+                    s_, e = rng.randint(0, Tf), -1
+                elif kind < 0.6:
+                    s_ = e = rng.randint(0, Tf)
+                else:
+                    s_ = rng.randint(0, Tf)
+                    e = rng.randint(s_, Tf)
+                row.append([_tok_id(rng), s_, e])
+            refs.append(row)
+            a = rng.choice([-1, -1, -2, -5, -Tf, 0, rng.randint(-3, Tf)])
+            slices.append([a, rng.choice([Tf, Tf + 2, rng.randint(a, Tf + 1), 0])])
+        rl = None if rng.random() < 0.5 else [rng.choice([R, R, rng.randint(0, R)]) for _ in range(N)]
+        if rl is not None and rng.random() < 0.3:
+            rl = [min(max(b, 0), R) for _, b in slices]
+            slices = [[a, x] for (a, _), x in zip(slices, rl)]      # slice ends == ref_lens: a column of slices may be passed as ref_lens
+        c = dict(kind="tokens", refs=refs, R=R, slices=slices, ref_lens=rl, partial=rng.random() < 0.35,
+                 retain=rng.random() < 0.4, stream="audit-tokens-missing-negstart")
+        c["alts"] = rng.sample(TOKEN_ALTS, 2) + (["alias"] if rl is not None and rl == [b for _, b in slices] else [])
+        out.append(c)
+    # (3) 'ref' policy with in_lens and other_lens equal (one tensor object may serve both) and far-away boundaries
+    for _ in range(50 * k):
+        N, T = rng.choice([1, 2, 3]), rng.choice([1, 2, 3, 4])
+        il = [rng.randint(0, T) for _ in range(N)]
+        rows = []
+        for _n in range(N):
+            row, pos = [], 0
+            for _t in range(T):
+                s_ = rng.randint(0, T)
+                e = rng.randint(s_, T + 1)
+                if rng.random() < 0.15:
+                    s_ = -1
+                row.append([_tok_id(rng), s_, e])
+            rows.append(row)
+        c = _sl("ref", rng.choice(WTS), rng.random() < 0.5, rng.choice([0, 1, 2]), T, il, rows=rows, other_lens=list(il),
+                stream="audit-ref-alias")
+        c["alts"] = ["alias"] + rng.sample([a for a in SLICE_ALTS if a != "alias"], 1)
+        out.append(c)
+    # (4) the directory command with non-default file prefix / sub-directory names, options at their default left out,
+    #     utterance ids that are prefixes of one another and contain the characters the naming scheme allows
+    for _ in range(30 * k):
+        c = rand_dir(rng)
+        c["stream"] = "audit-dir-options"
+        if rng.random() < 0.6:
+            c["prefix"] = rng.choice(["p_", "u", "x."])
+        if rng.random() < 0.5:
+            c["subdirs"] = {"feat": "f", "ali": rng.choice(["a", "alis"]), "ref": rng.choice(["r", "ref.d"])}
+        c["omit_defaults"] = rng.random() < 0.6
+        if rng.random() < 0.5:
+            c["wt"], c["lobe"] = "symmetric", 0
+        ids = rng.choice([["u", "u.0"], ["a-b", "a-b_c"], ["u.0.1.2", "u"], ["utt", "ut"]])
+        for u, name in zip(c["utts"], ids):
+            u["id"] = name
+        out.append(c)
+    # (5) the directory command on an utterance whose alignment has fewer runs than the lobe offset
+    for _ in range(16 * k):
+        c = rand_dir(rng)
+        c["stream"] = "audit-dir-ali-few-runs"
+        c["policy"], c["utts"] = "ali", c["utts"][:1]
+        u = c["utts"][0]
+        T = len(u["feat"])
+        r = rng.randint(1, 3)
+        cuts = sorted(rng.sample(range(1, T), min(r - 1, max(T - 1, 0)))) if T > 1 else []
+        u["ali"] = [sum(1 for x in cuts if x <= t) % 3 for t in range(T)]
+        c["lobe"] = rng.choice([1, 2, 2, 3, 4])
+        out.append(c)
+    return out
 
 
 def rand_utt(rng, uid, policy, seg_only=False):
@@ -977,7 +1119,12 @@ def gen_cases(chk):
         c = dict(c)
         c["stream"] = "probe"
         cases.append(c)
-    cases += exhaustive_cases(chk)
+    ex = exhaustive_cases(chk)
+    for i, c in enumerate(ex):
+        if i % 5 == 0:
+            pool = SLICE_ALTS if c["kind"] == "slice" else TOKEN_ALTS
+            c["alts"] = [pool[(i // 5) % len(pool)]]
+    cases += ex
     for c in load_corpus("C10"):
         c = dict(c)
         c["stream"] = "corpus"
@@ -987,6 +1134,7 @@ def gen_cases(chk):
     cases += [rand_slice(rng) for _ in range(n_sl)]
     cases += [rand_tokens(rng) for _ in range(n_tk)]
     cases += [rand_dir(rng) for _ in range(n_dir)]
+    cases += audit_cases(rng, 8 if thorough else 1)
     return cases
 
 
@@ -1123,6 +1271,19 @@ def run(chk, cases=None, rejections=None):
             chk.count("dir:ref=" + ("none" if u.get("ref") is None else "seg" if "seg" in u["ref"] else "tok"))
             if im[0] == "ok":
                 chk.count("dir:validator=" + im[2].split(":")[0])
+    alt_bad = []
+    for i, (c, im) in enumerate(zip(cases, impls)):
+        for a in c.get("alts") or []:
+            chk.count("alt=" + a)
+        for a, o in run_alts(c, im):
+            alt_bad.append((i, a, o))
+    chk.extra["variant_disagreements"] = len(alt_bad)
+    for i, a, o in alt_bad[:4]:
+        chk.report({"case": _clean(cases[i]), "impl": impls[i], "variant": a, "variant_impl": o,
+                    "what": "relation: the same logical call through variant '%s' (entry point / memory layout / dtype / call history / "
+                            "aliasing / element by element; see SLICE_ALTS, TOKEN_ALTS in harness/props/c10.py) gives a different outcome "
+                            "than the canonical call" % a,
+                    "correspondence": "corr:C10:variants", "theorems_at_stake": THEOREMS[cases[i]["kind"]]})
     res = coq_eval_bools(chk.workdir, IMPORTS, terms)
     okV, okR = res[0::2], res[1::2]
 
